@@ -627,7 +627,7 @@ def run(ctx):
         st.count_dist(ctx, c)
         ctx.record_case({k: c[k] for k in ('spec', 'nx', 'nu', 'ep', 'rows')}, st.nontrivial(c))
         algebraic = pipes.kinds_in(c['spec']) <= {'poly', 'bilinear', 'const', 'delay', 'split', 'pipe'}
-        why = st.compare_values(Xt, r1, c, cells, reg)
+        why = st.compare_values_guarded(Xt, r1, c, cells, reg, lambda Z, est=est: est.transform(Z), count=ctx.count)
         if why:
             ctx.mismatch('transform(X): ' + why, c, None, None)
             bad.append(c)
